@@ -261,6 +261,58 @@ def gen_multicollect_spec(rng: random.Random) -> dict:
     return {"steps": steps, "externals": []}
 
 
+def gen_collect_retry_spec(rng: random.Random) -> dict:
+    """a collecting step with 2..3 workers AND a retry policy whose wait strategy is not constant (incrementing,
+    exponential, chains).  One of its invocations (the event with k=9) fails transiently: its first 1..3 executions,
+    and then once more in the execution that follows a collect re-run (`fail_nth` counts executions of the invocation
+    itself, it does not read retry_info).  The other events of the collection are sent later, by a side branch that
+    sleeps / is gated, and the scheduler releases the k=9 invocation reluctantly (`hold_k`): while one of its RETRIES
+    is parked at the gate the other workers buffer events, its own collect_events call then meets a stale snapshot,
+    the control loop runs it again (nothing failed: not a retry) and that execution fails -- failure k of the
+    invocation, to be followed by the delay documented for retry k."""
+    nw = rng.randint(2, 3)
+    budget = rng.randint(6, 8)
+    r = rng.random()
+    if r < 0.35:
+        pol: dict[str, Any] = {"kind": "incr", "n": budget, "start": rng.choice([0, 0, 1]), "inc": rng.choice([1, 2, 3])}
+    elif r < 0.6:
+        pol = {"kind": "exp", "n": budget, "mult": rng.choice([1, 1, 2]), "base": rng.choice([2, 3]), "max": 64}
+    elif r < 0.8:
+        pol = {"kind": "chain", "n": budget, "waits": rng.choice([[3, 1, 2], [1, 2, 4, 8], [0, 2, 4], [6, 4, 2, 1]])}
+    else:
+        pol = {"kind": "chain_exp", "n": budget, "first": rng.choice([1, 3])}
+    nfail = rng.randint(1, 3)
+    pattern: list = list(range(1, nfail + 1))
+    r = rng.random()
+    if r < 0.75:
+        pattern.append("rerun")
+    elif r < 0.9:
+        pattern.append(nfail + 2)  # the execution after the next one, whatever it is
+    two_types = rng.random() < 0.6
+    n_late = rng.randint(1, 3)
+    n_early = rng.choice([0, 0, 1])
+    other = 6 if two_types else 5
+    want = sorted([5] + [other] * rng.randint(1, n_late + n_early))
+    start_sc: list = [["send", 5, None, 9]] + [["send", other, None, rng.choice([None, 1, 2])] for _ in range(n_early)] + [["send", 7, None, None]]
+    rng.shuffle(start_sc)
+    start = {"name": "s00", "accepts": [0], "nw": 1, "retry": None, "script": start_sc + [["ret", "none"]]}
+    side_sc: list = []
+    if rng.random() < 0.7:
+        side_sc.append(["sleep", rng.randint(1, 12)])
+    if not side_sc or rng.random() < 0.4:
+        side_sc.append(["gate"])
+    side_sc += [["send", other, None, rng.choice([None, 1, 2])] for _ in range(n_late)]
+    side = {"name": "s04", "accepts": [7], "nw": 1, "retry": None, "script": side_sc + [["ret", "none"]]}
+    coll_sc: list = [["fail_nth", pattern, rng.randint(1, 9), 9], ["gate"],
+                     ["collect", want] + ([rng.choice(["b01", "b02"])] if rng.random() < 0.15 else [])]
+    coll_sc.append(["ret", rng.choice(["8", "8", "none", "stop"])])
+    coll = {"name": "s03", "accepts": [5, 6] if two_types else [5], "nw": nw, "retry": pol, "script": coll_sc}
+    sink = {"name": "s05", "accepts": [8], "nw": 1, "retry": None, "script": [["ret", rng.choice(["none", "stop"])]]}
+    steps = [start, side, coll, sink]
+    rng.shuffle(steps)
+    return {"steps": steps, "externals": [], "hold_k": 9}
+
+
 def gen_retry_spec(rng: random.Random) -> dict:
     """failing steps with budgets, delays and catch_error handlers on one lineage"""
     n_fail = rng.randint(1, 3)
@@ -472,6 +524,8 @@ def gen_spec(rng: random.Random, **kw: Any) -> dict:  # type: ignore[no-redef]
     r = rng.random()
     if kw.get("family") == "span":
         return gen_span_spec(rng)
+    if kw.get("family") == "collect_retry":
+        return gen_collect_retry_spec(rng)
     if kw.get("family") == "general" or r < 0.55:
         kw.pop("family", None)
         kw.pop("raise_incomplete", None)
